@@ -3,7 +3,9 @@ package keeper
 import (
 	"context"
 
+	errorsmod "cosmossdk.io/errors"
 	sdk "github.com/cosmos/cosmos-sdk/types"
+	sdkerrors "github.com/cosmos/cosmos-sdk/types/errors"
 
 	stakingtypes "cosmossdk.io/x/staking/types"
 
@@ -16,6 +18,10 @@ func (k msgServer) SelfDelegate(ctx context.Context, msg *types.MsgSelfDelegate)
 	delegatorBytes, err := k.addressCodec.StringToBytes(msg.Sender)
 	if err != nil {
 		return nil, err
+	}
+
+	if msg.Amount.IsNil() || !msg.Amount.IsPositive() {
+		return nil, errorsmod.Wrap(sdkerrors.ErrInvalidRequest, "amount must be positive")
 	}
 
 	rootOwnerAcc, rootOwnerVal, err := k.getRootOwner(ctx, msg.Sender)
